@@ -4,6 +4,9 @@
 //!   itv record <m> <n>    n seeded random runs of module m -> ndjson trace on stdout
 mod c03;
 mod c04;
+mod c11;
+mod c12;
+mod olpc;
 mod c20;
 mod common;
 mod keys;
@@ -16,6 +19,7 @@ use std::io::{BufRead, Write};
 struct State {
     c04: Option<c04::Ctx>,
     verify: Option<verify::Ctx>,
+    c11: Option<c11::Ctx>,
 }
 
 fn dispatch(st: &mut State, scn: &Value) -> Value {
@@ -28,6 +32,7 @@ fn dispatch(st: &mut State, scn: &Value) -> Value {
             st.verify.get_or_insert_with(|| verify::Ctx::new(&common::family(), &prop)).run(scn, ev, pin)
         }
         "C20" => c20::run(scn),
+        "C11" => st.c11.get_or_insert_with(c11::Ctx::new).run(scn),
         "C04" => st.c04.get_or_insert_with(|| c04::Ctx::new(&common::family())).run(scn, true, false),
         m => json!({"error": format!("unknown module {m}")}),
     }
@@ -37,7 +42,7 @@ fn main() {
     let args: Vec<String> = std::env::args().collect();
     let cmd = args.get(1).map(|s| s.as_str()).unwrap_or("");
     common::quiet_panics();
-    let mut st = State { c04: None, verify: None };
+    let mut st = State { c04: None, verify: None, c11: None };
     let stdout = std::io::stdout();
     let mut out = std::io::BufWriter::new(stdout.lock());
     match cmd {
@@ -83,6 +88,8 @@ fn main() {
                     }
                 }
                 "C20" => c20::record(n, &mut out),
+                "C11keyid" => writeln!(out, "{}", c12::keyid_preimages()).unwrap(),
+                "C11all" => writeln!(out, "{}", c11::Ctx::new().all_scalars(n.max(1) as u32)).unwrap(),
                 "C20bin" => writeln!(out, "{}", c20::binary(n)).unwrap(),
                 "C03" => {
                     let mut rng = common::rng(3);
